@@ -744,7 +744,17 @@ func (w *World) menu() []alt {
 			}})
 		}
 	}
-	if len(menu) == 0 || !menu[0].cost.zero() {
+	if spinning {
+		// time passes, then the spinner gets its next stretch (it is not
+		// frozen: should the loop be productive after all, it goes on)
+		cur := w.curT
+		menu = append([]alt{{label: "tick (" + cur.name + " spins)", do: func() {
+			for i := 0; i < 5; i++ {
+				w.tick()
+			}
+			cur.run = -1
+		}}}, menu...)
+	} else if len(menu) == 0 || !menu[0].cost.zero() {
 		// nothing can continue by itself: time passes
 		menu = append([]alt{{label: "tick", do: w.tick}}, menu...)
 	} else if w.scn.Faults.Tick && w.allow("tick") {
